@@ -6,7 +6,24 @@ import (
 	"flag"
 	"fmt"
 	"os"
+	"sort"
 )
+
+// Args are the flags shared by all subcommands.
+type Args struct {
+	Prop  string
+	Seed  uint64
+	N     int    // number of random histories / inputs
+	Steps int    // operations per history where applicable
+	Depth int    // exhaustive depth where applicable
+	Out   string // output directory: report.json (+ trace.txt)
+	Mode  string // free-form variant selector
+}
+
+var registry = map[string]func(Args){}
+
+// register is called from init() of each *_cmd.go file.
+func register(name string, f func(Args)) { registry[name] = f }
 
 var onlyTag string
 
@@ -14,28 +31,27 @@ var onlyTag string
 func want(tag string) bool { return onlyTag == "" || onlyTag == tag }
 
 func main() {
-	if len(os.Args) < 2 {
-		fmt.Fprintln(os.Stderr, "usage: harness <cmd> [flags]")
+	if len(os.Args) < 2 || registry[os.Args[1]] == nil {
+		names := []string{}
+		for k := range registry {
+			names = append(names, k)
+		}
+		sort.Strings(names)
+		fmt.Fprintln(os.Stderr, "usage: harness <cmd> [flags]; commands:", names)
 		os.Exit(2)
 	}
 	cmd := os.Args[1]
 	fs := flag.NewFlagSet(cmd, flag.ExitOnError)
-	seed := fs.Uint64("seed", envSeed(), "PRNG seed")
-	n := fs.Int("n", 100, "number of random histories")
-	depth := fs.Int("depth", 2, "exhaustive depth where applicable")
-	out := fs.String("out", ".", "output directory")
-	prop := fs.String("prop", "", "property id")
-	only := fs.String("only", "", "run only the history with this tag (replay)")
+	var a Args
+	fs.Uint64Var(&a.Seed, "seed", envSeed(), "PRNG seed")
+	fs.IntVar(&a.N, "n", 100, "number of random histories")
+	fs.IntVar(&a.Depth, "depth", 2, "exhaustive depth where applicable")
+	fs.IntVar(&a.Steps, "steps", 300, "operations per history where applicable")
+	fs.StringVar(&a.Out, "out", ".", "output directory")
+	fs.StringVar(&a.Prop, "prop", "", "property id")
+	fs.StringVar(&a.Mode, "mode", "", "variant")
+	fs.StringVar(&onlyTag, "only", "", "run only the history with this tag (replay)")
 	must(fs.Parse(os.Args[2:]))
-	must(os.MkdirAll(*out, 0o755))
-	onlyTag = *only
-	switch cmd {
-	case "gen":
-		cmdGen(*out)
-	case "storage":
-		cmdStorage(*prop, *seed, *n, *depth, *out)
-	default:
-		fmt.Fprintln(os.Stderr, "unknown command", cmd)
-		os.Exit(2)
-	}
+	must(os.MkdirAll(a.Out, 0o755))
+	registry[cmd](a)
 }
